@@ -50,6 +50,10 @@ func (cl *Client) TGSExchange(tgsReq messages.TGSReq, kdcRealm string, tgt messa
 		return tgsReq, tgsRep, krberror.NewErrorf(krberror.KRBMsgError, "TGS Exchange Error: CRealm in response does not match the client's realm. Expected: %s; Reply: %s", cl.Credentials.Domain(), tgsRep.CRealm)
 	}
 
+	if len(tgsRep.Ticket.SName.NameString) < 1 {
+		// The sname of the ticket is outside the encrypted part of the reply: it is not authenticated and may hold anything.
+		return tgsReq, tgsRep, krberror.NewErrorf(krberror.KRBMsgError, "TGS Exchange Error: ticket in response has an empty SName")
+	}
 	if tgsRep.Ticket.SName.NameString[0] == "krbtgt" && !tgsRep.Ticket.SName.Equal(tgsReq.ReqBody.SName) {
 		if referral > 5 {
 			return tgsReq, tgsRep, krberror.Errorf(err, krberror.KRBMsgError, "TGS Exchange Error: maximum number of referrals exceeded")
